@@ -142,10 +142,9 @@ theorem repeated_qualifier_key_witness :
 
 /-- Composition on lines: the main loop over the lines of a laid-out record (followed by any number of
 empty lines) returns what the record states. -/
-theorem parseLoop_layout_lines (r : GbRec) (ℓ : RecLayout) (tail : List Str) (h : WF r) (ht : ∀ l ∈ tail, l = [])
-    (hoo : orgOmitted r ℓ = false) :
+theorem parseLoop_layout_lines (r : GbRec) (ℓ : RecLayout) (tail : List Str) (h : WF r) (ht : ∀ l ∈ tail, l = []) :
     parseLoop (layout r ℓ ++ tail) {} = .ok (toSequence r) :=
-  parseLoop_layout r ℓ tail h ht hoo
+  parseLoop_layout r ℓ tail h ht
 
 /-- **Parsing a well-formed GenBank record returns exactly what the record states.**  For every abstract
 record in the domain `WF` (the property's quantifier) and every choice of the independent writer — the six
@@ -157,44 +156,29 @@ and qualifier values.  The layout choices also cover: empty standard blocks writ
 blocks (DBLINK, COMMENT, …) in any of the seven places between LOCUS and FEATURES and (CONTIG) between the
 feature table and ORIGIN, qualifier values quoted,
 unquoted or absent, location texts of every INSDC shape (order, bond, gap, n.m, n^m, remote).
-One layout choice is excluded, `hoo`: a SOURCE block that is written while its empty ORGANISM line is left out
-(`orgOmitted`) — there the clause fails, known finding C01-source-without-organism
-(`source_without_organism_witness`).  (`parse` is the model of `genbank.Parse`, Model/Genbank.lean, tied to the Go
+Among the layouts: a SOURCE block written while its empty ORGANISM line is left out (`omitOrganism`).  (`parse` is the model of `genbank.Parse`, Model/Genbank.lean, tied to the Go
 function by the per-case correspondence of the check.) -/
-theorem parse_layout (r : GbRec) (ℓ : RecLayout) (finalNewline : Bool) (h : WF r) (hoo : orgOmitted r ℓ = false) :
+theorem parse_layout (r : GbRec) (ℓ : RecLayout) (finalNewline : Bool) (h : WF r) :
     parse (layoutText r ℓ finalNewline) = .ok (toSequence r) :=
-  parse_layoutText r ℓ finalNewline h hoo
+  parse_layoutText r ℓ finalNewline h
 
 /-- the same for every record of the quantifier, repeated qualifier keys included: what the parser's map
 keeps (`toSequenceM`: per feature the last value of a repeated key) -/
-theorem parse_layout_last_wins (r : GbRec) (ℓ : RecLayout) (finalNewline : Bool) (h : wfLoose r = true)
-    (hoo : orgOmitted r ℓ = false) :
+theorem parse_layout_last_wins (r : GbRec) (ℓ : RecLayout) (finalNewline : Bool) (h : wfLoose r = true) :
     parse (layoutText r ℓ finalNewline) = .ok (toSequenceM r) :=
-  parse_layoutText_loose r ℓ finalNewline h hoo
+  parse_layoutText_loose r ℓ finalNewline h
 
-/-- known finding C01-source-without-organism: a record whose SOURCE block is written without an ORGANISM line
-(the organism is empty and the writer leaves the empty line out, as it may leave out every other block without
-text).  `getSourceOrganism` takes the first line that does not continue SOURCE for the ORGANISM line whatever
-it is: the text of the NEXT keyword block comes back as the organism — here the REFERENCE line — instead of
-the empty organism the record states (`toSequenceOrg`: what the finding predicts). -/
+/-- a SOURCE block written without its ORGANISM line (the organism is empty and the writer leaves the empty line
+out, layout choice `omitOrganism`): the organism comes back empty — the keyword block that follows SOURCE is not
+taken for it (defect C01-source-without-organism, repaired by 6ccbb58) -/
 def swoRec : GbRec :=
   { locus := { name := c!"x", len := c!"4", mol := c!"DNA", topo := some .linear }
     source := c!"some source", refs := [{ range := c!"(bases 1 to 4)", authors := c!"A" }], seq := c!"acgt" }
 
-theorem source_without_organism_witness :
-    WF swoRec ∧ orgOmitted swoRec { omitOrganism := true } = true
-      ∧ parse (layoutText swoRec { omitOrganism := true } true) = .ok (toSequenceOrg swoRec { omitOrganism := true })
-      ∧ (toSequenceOrg swoRec { omitOrganism := true }).md.organism = c!"1  (bases 1 to 4)"
-      ∧ (toSequence swoRec).md.organism = []
-      ∧ ¬ (∀ (r : GbRec) (ℓ : RecLayout) (nl : Bool), WF r → parse (layoutText r ℓ nl) = .ok (toSequence r)) := by
-  have h3 : parse (layoutText swoRec { omitOrganism := true } true) = .ok (toSequenceOrg swoRec { omitOrganism := true }) := by
-    decide
-  refine ⟨by show wf swoRec = true; decide, by decide, h3, by decide, by decide, ?_⟩
-  intro h
-  have := h swoRec { omitOrganism := true } true (by show wf swoRec = true; decide)
-  rw [h3] at this
-  revert this
-  decide
+example : orgOmitted swoRec { omitOrganism := true } = true
+    ∧ parse (layoutText swoRec { omitOrganism := true } true) = .ok (toSequence swoRec)
+    ∧ (toSequence swoRec).md.organism = [] ∧ (toSequence swoRec).md.source = c!"some source" :=
+  ⟨by decide, parse_layoutText _ _ _ (by decide), by decide, by decide⟩
 
 /-- **No location text of the domain makes `parseLocation` panic.**  `Genbank.parse` leaves the call
 `parseLocation(feature.GbkLocationString)` to property C02's model; in Go a panic there is a panic of `Parse`, and
@@ -214,11 +198,10 @@ theorem locations_total (r : GbRec) (h : wfLoose r = true) :
   simp only [wfFeatureLoose, isLocTextB, Bool.and_eq_true] at hw
   exact Props.C02.parseLocation_total _ hw.2.1
 
-theorem parse_layout_locations_total (r : GbRec) (ℓ : RecLayout) (finalNewline : Bool) (h : wfLoose r = true)
-    (hoo : orgOmitted r ℓ = false) :
+theorem parse_layout_locations_total (r : GbRec) (ℓ : RecLayout) (finalNewline : Bool) (h : wfLoose r = true) :
     ∃ s, parse (layoutText r ℓ finalNewline) = .ok s
       ∧ ∀ f ∈ s.features, Location.parseLocation f.gbkLoc ≠ .panic :=
-  ⟨toSequenceM r, parse_layoutText_loose r ℓ finalNewline h hoo, locations_total r h⟩
+  ⟨toSequenceM r, parse_layoutText_loose r ℓ finalNewline h, locations_total r h⟩
 
 /-- a small record exercising every section: two-digit length, a locus called `linear` that is circular,
 wrapped definition, KEYWORDS left out, DBLINK before KEYWORDS, CONTIG after the feature table, a reference whose journal continues with the word SOURCE, a COMMENT continuing with the
@@ -248,7 +231,7 @@ example : WF exampleRec ∧ noSlashEnd exampleRec exampleLay = true := by
   · decide
 
 example : parse (layoutText exampleRec exampleLay false) = .ok (toSequence exampleRec) :=
-  parse_layout _ _ _ (by show wf exampleRec = true; decide) (by decide)
+  parse_layout _ _ _ (by show wf exampleRec = true; decide)
 
 /-! ## files of several records -/
 
@@ -266,7 +249,7 @@ theorem parseMulti_eq_parse_each (rs : List GbRec) (ℓ : FileLayout) (hh : ℓ.
     parseMulti (layoutFile rs ℓ) = mapOutcome (fun p => parse (layoutText p.1 p.2 true)) (zipLay rs ℓ.recs) := by
   rw [parseMulti_layoutFile rs ℓ hh hne hok,
     mapOutcome_ok (fun p : GbRec × RecLayout => parse (layoutText p.1 p.2 true)) (fun p => toSequence p.1) _
-      (fun p hp => parse_layoutText p.1 p.2 true (hok p hp).1 (hok p hp).2.2)]
+      (fun p hp => parse_layoutText p.1 p.2 true (hok p hp).1)]
   congr 1
   have := zipLay_map_fst rs ℓ.recs
   conv => lhs; rw [← this]
@@ -281,7 +264,7 @@ theorem parseFlat_layout (rs : List GbRec) (ℓ : FileLayout) (H : List Str) (hh
 example : ∀ p ∈ zipLay [exampleRec, exampleRec] [exampleLay, {}], RecOK p := by
   intro p hp
   simp only [zipLay, List.headD_cons, List.tail_cons, List.mem_cons, List.not_mem_nil, or_false] at hp
-  rcases hp with rfl | rfl <;> exact ⟨by decide, by decide, by decide⟩
+  rcases hp with rfl | rfl <;> exact ⟨by decide, by decide⟩
 
 /-- the two file theorems over the whole quantifier (`RecOKL`: `wfLoose`, so repeated qualifier keys included):
 what the judge expects of a `multi` / `flat` case with a repeated key, `rs.map toSequenceM` -/
